@@ -123,6 +123,7 @@ func NewWorld() *World {
 	w.Q = &mon.Quiescer{BusyBase: verifhook.BusyCount()}
 	w.Q.Preds = append(w.Q.Preds, w.Fab.Idle)
 	w.Q.Barrier = w.barrier
+	w.Q.Stalled = w.Fab.StalledSenders
 	return w
 }
 
